@@ -133,6 +133,10 @@ class Model:
             from .flatten import normalize_calls
 
             normalize_calls(self)
+        if not os.environ.get("VERIF_NO_SINK"):
+            from .flatten import sink_returns
+
+            sink_returns(self)
 
     # ------------------------------------------------------------------ building
     def _walk(self, body, prefix, cls, mod, path, parent_fn):
